@@ -435,6 +435,84 @@ def _inline(h: _Helper, call: ast.Call, stmt: ast.stmt, lst: list, k: int, recv:
     return True
 
 
+def _unfold_comprehension_statements(trees: dict[str, ast.Module], names: set[str]) -> int:
+    """A comprehension that calls a helper in its element or filter evaluates the call once per element: written as the loop it
+    abbreviates (`acc.extend([f(x) for x in xs if c])` -> `for x in xs: if c: acc.append(f(x))`) the call sits in a statement position it
+    can be hoisted out of.  Done only for statements whose comprehension mentions one of `names` (candidates for absorption); N2 folds the
+    loop back afterwards when nothing was substituted."""
+    n = 0
+
+    def mentions(comp: ast.AST) -> bool:
+        parts = [comp.key, comp.value] if isinstance(comp, ast.DictComp) else [comp.elt]
+        for g in comp.generators:
+            parts += g.ifs
+        for g in comp.generators[1:]:
+            parts.append(g.iter)
+        for part in parts:
+            for k in ast.walk(part):
+                if isinstance(k, ast.Call):
+                    nm = k.func.id if isinstance(k.func, ast.Name) else k.func.attr if isinstance(k.func, ast.Attribute) else None
+                    if nm in names:
+                        return True
+        return False
+
+    def loops(comp: ast.AST, leaf: ast.stmt, at: ast.AST) -> ast.stmt:
+        body: ast.stmt = leaf
+        for g in reversed(comp.generators):
+            for c in reversed(g.ifs):
+                body = ast.copy_location(ast.If(test=c, body=[body], orelse=[]), at)
+            tgt = copy.deepcopy(g.target)
+            for x in ast.walk(tgt):
+                if hasattr(x, "ctx"):
+                    x.ctx = ast.Store()
+            body = ast.copy_location(ast.For(target=tgt, iter=g.iter, body=[body], orelse=[], type_comment=None), at)
+        return body
+
+    for tree in trees.values():
+        for node in ast.walk(tree):
+            if not isinstance(node, (ast.FunctionDef, ast.AsyncFunctionDef, ast.For, ast.While, ast.If, ast.With, ast.Try, ast.ExceptHandler)):
+                continue
+            for lst in _stmt_lists(node):
+                i = 0
+                while i < len(lst):
+                    st = lst[i]
+                    new: Optional[list[ast.stmt]] = None
+                    if isinstance(st, ast.Expr) and isinstance(st.value, ast.Call) and isinstance(st.value.func, ast.Attribute) and st.value.func.attr in ("extend", "update") \
+                            and len(st.value.args) == 1 and not st.value.keywords and isinstance(st.value.args[0], (ast.ListComp, ast.GeneratorExp, ast.SetComp)) \
+                            and any(g.is_async == 0 for g in st.value.args[0].generators) and mentions(st.value.args[0]) and isinstance(st.value.func.value, (ast.Name, ast.Attribute)):
+                        comp = st.value.args[0]
+                        meth = "append" if st.value.func.attr == "extend" else "add"
+                        leaf = ast.Expr(value=ast.Call(func=ast.Attribute(value=copy.deepcopy(st.value.func.value), attr=meth, ctx=ast.Load()), args=[comp.elt], keywords=[]))
+                        ast.copy_location(leaf, st)
+                        new = [loops(comp, leaf, st)]
+                    elif isinstance(st, ast.Assign) and len(st.targets) == 1 and isinstance(st.targets[0], ast.Name) and isinstance(st.value, (ast.ListComp, ast.SetComp, ast.DictComp)) and mentions(st.value) \
+                            and not _mentions(st.value, st.targets[0]):
+                        comp = st.value
+                        acc = st.targets[0].id
+                        if isinstance(comp, ast.ListComp):
+                            init: ast.expr = ast.List(elts=[], ctx=ast.Load())
+                            leaf = ast.Expr(value=ast.Call(func=ast.Attribute(value=ast.Name(id=acc, ctx=ast.Load()), attr="append", ctx=ast.Load()), args=[comp.elt], keywords=[]))
+                        elif isinstance(comp, ast.SetComp):
+                            init = ast.Call(func=ast.Name(id="set", ctx=ast.Load()), args=[], keywords=[])
+                            leaf = ast.Expr(value=ast.Call(func=ast.Attribute(value=ast.Name(id=acc, ctx=ast.Load()), attr="add", ctx=ast.Load()), args=[comp.elt], keywords=[]))
+                        else:
+                            init = ast.Dict(keys=[], values=[])
+                            leaf = ast.Assign(targets=[ast.Subscript(value=ast.Name(id=acc, ctx=ast.Load()), slice=comp.key, ctx=ast.Store())], value=comp.value)
+                        ast.copy_location(leaf, st)
+                        first = ast.copy_location(ast.Assign(targets=[ast.Name(id=acc, ctx=ast.Store())], value=init), st)
+                        if hasattr(st, "_ann"):
+                            first._ann = st._ann  # type: ignore[attr-defined]
+                        new = [first, loops(comp, leaf, st)]
+                    if new is not None:
+                        lst[i:i + 1] = new
+                        n += 1
+                        i += len(new)
+                    else:
+                        i += 1
+        ast.fix_missing_locations(tree)
+    return n
+
+
 def absorb_helpers(trees: dict[str, ast.Module], keep: Iterable[str] = ()) -> dict:
     """N1.  `trees`: module name -> ast.Module (mutated in place)."""
     keep = set(keep) | KEEP | names_used_by_rules()
@@ -455,6 +533,8 @@ def absorb_helpers(trees: dict[str, ast.Module], keep: Iterable[str] = ()) -> di
                     for s in f.body:
                         if isinstance(s, ast.FunctionDef):
                             helpers.append(_Helper("nested", s.name, s, modname, None, f, f.body))
+        cand_names = {h.name for h in helpers if h.name not in keep and h.qual not in keep and _body_ok(h) is None}
+        stats["comprehensions_unfolded_for_absorption"] = stats.get("comprehensions_unfolded_for_absorption", 0) + _unfold_comprehension_statements(trees, cand_names)
         # repo-wide reference indexes
         attr_refs: dict[str, list[tuple[str, ast.Attribute]]] = {}
         name_refs: dict[tuple[str, str], list[ast.Name]] = {}
@@ -1086,5 +1166,78 @@ def any_to_loop(tree: ast.Module) -> int:
                 ast.copy_location(loop, st)
                 lst[i] = loop
                 total += 1
+    ast.fix_missing_locations(tree)
+    return total
+
+
+# --------------------------------------------------------------------------------------------------------------------------
+# N8 map / filter
+# --------------------------------------------------------------------------------------------------------------------------
+
+
+def map_filter_to_comprehensions(tree: ast.Module) -> int:
+    """`map(f, xs)` is `(f(x) for x in xs)`, `filter(p, xs)` is `(x for x in xs if p(x))` (`filter(None, xs)`: `if x`); wrapped in list() /
+    set() / tuple() they are the corresponding comprehension.  `operator.attrgetter("a")` / `attrgetter("a")` as the function is `x.a`, a
+    lambda is applied by substituting its parameter.  The comprehension is the normal form."""
+    total = 0
+    counter = [0]
+
+    def apply(fn_expr: ast.expr, arg: ast.expr) -> Optional[ast.expr]:
+        if isinstance(fn_expr, ast.Lambda):
+            a = fn_expr.args
+            if len(a.args) != 1 or a.vararg or a.kwarg or a.kwonlyargs or a.defaults:
+                return None
+            pname = a.args[0].arg
+            body = copy.deepcopy(fn_expr.body)
+            if any(isinstance(n, ast.Lambda) for n in ast.walk(body)):
+                return None
+
+            class Sub(ast.NodeTransformer):
+                def visit_Name(self, node):
+                    return copy.deepcopy(arg) if node.id == pname else node
+
+            return Sub().visit(body)
+        if isinstance(fn_expr, ast.Call) and not fn_expr.keywords and len(fn_expr.args) == 1 and isinstance(fn_expr.args[0], ast.Constant) and isinstance(fn_expr.args[0].value, str):
+            nm = fn_expr.func.attr if isinstance(fn_expr.func, ast.Attribute) else fn_expr.func.id if isinstance(fn_expr.func, ast.Name) else ""
+            if nm == "attrgetter" and "." not in fn_expr.args[0].value:
+                return ast.Attribute(value=copy.deepcopy(arg), attr=fn_expr.args[0].value, ctx=ast.Load())
+            if nm == "itemgetter":
+                return None
+        if isinstance(fn_expr, (ast.Name, ast.Attribute)):
+            return ast.Call(func=copy.deepcopy(fn_expr), args=[copy.deepcopy(arg)], keywords=[])
+        return None
+
+    class T(ast.NodeTransformer):
+        def visit_Call(self, node):
+            nonlocal total
+            self.generic_visit(node)
+            f = node.func
+            if isinstance(f, ast.Name) and f.id in ("map", "filter") and len(node.args) == 2 and not node.keywords and not any(isinstance(a, ast.Starred) for a in node.args):
+                counter[0] += 1
+                var = f"_mf{counter[0]}"
+                x = ast.Name(id=var, ctx=ast.Load())
+                if f.id == "map":
+                    elt = apply(node.args[0], x)
+                    if elt is None:
+                        return node
+                    gen = ast.GeneratorExp(elt=elt, generators=[ast.comprehension(target=ast.Name(id=var, ctx=ast.Store()), iter=node.args[1], ifs=[], is_async=0)])
+                else:
+                    if isinstance(node.args[0], ast.Constant) and node.args[0].value is None:
+                        cond: Optional[ast.expr] = x
+                    else:
+                        cond = apply(node.args[0], x)
+                    if cond is None:
+                        return node
+                    gen = ast.GeneratorExp(elt=ast.Name(id=var, ctx=ast.Load()), generators=[ast.comprehension(target=ast.Name(id=var, ctx=ast.Store()), iter=node.args[1], ifs=[cond], is_async=0)])
+                total += 1
+                return ast.copy_location(gen, node)
+            if isinstance(f, ast.Name) and f.id in ("list", "set", "tuple") and len(node.args) == 1 and not node.keywords and isinstance(node.args[0], ast.GeneratorExp) and f.id != "tuple":
+                g = node.args[0]
+                comp = ast.ListComp(elt=g.elt, generators=g.generators) if f.id == "list" else ast.SetComp(elt=g.elt, generators=g.generators)
+                total += 1
+                return ast.copy_location(comp, node)
+            return node
+
+    T().visit(tree)
     ast.fix_missing_locations(tree)
     return total
